@@ -59,6 +59,27 @@ pub fn corpus_window(data: &[u8], rng: &mut Rng, lines: usize) -> Vec<u8> {
     data[s..end].to_vec()
 }
 
+/// `n` small classes whose obfuscated names are a scrambled counter (file order differs from
+/// every sort order), two thirds with one or two members.
+pub fn many_classes_text(rng: &mut Rng, n: usize) -> Vec<u8> {
+    let mul = 2_654_435_761u64 | 1;
+    let salt = rng.next_u64();
+    let mut t = String::with_capacity(n * 90);
+    for i in 0..n {
+        let k = ((i as u64).wrapping_mul(mul) ^ salt) & 0xff_ffff;
+        t.push_str(&format!("com.example.gen.Klass{i} -> z.{k:06x}{}:\n", if i % 5 == 0 { "$a" } else { "" }));
+        match i % 3 {
+            0 => {}
+            1 => t.push_str(&format!("    {}:{}:void run(int):{}:{} -> a\n", 1 + i % 7, 3 + i % 7, 10 + i % 90, 12 + i % 90)),
+            _ => {
+                t.push_str("    1:1:void com.example.gen.Util.check(java.lang.Object):20:20 -> b\n");
+                t.push_str(&format!("    1:1:void handle(java.lang.Object):{} -> b\n", 30 + i % 50));
+            }
+        }
+    }
+    t.into_bytes()
+}
+
 pub fn gen_input(ctx: &Ctx, case_idx: u64, rng: &mut Rng) -> (String, Vec<u8>) {
     let whole_corpus = ctx.tier == Tier::Thorough && case_idx == 0 && !ctx.slow() && ctx.variant == "native";
     if whole_corpus {
@@ -74,6 +95,11 @@ pub fn gen_input(ctx: &Ctx, case_idx: u64, rng: &mut Rng) -> (String, Vec<u8>) {
         let n = 300 + rng.below(400);
         let ast = pgvcore::ast::huge_group_ast(rng, n);
         return ("ast-huge-group".to_string(), ast.print(Term::Lf, true, rng));
+    }
+    if case_idx % 997 == 11 && ctx.shard % 4 == 0 && !ctx.slow() {
+        // more classes than a 16-bit index holds, in a file order that is not the sorted order
+        let n = 65_600 + rng.below(3_000);
+        return ("many-classes".to_string(), many_classes_text(rng, n));
     }
     match case_idx % 4 {
         0 | 1 => {
